@@ -1,0 +1,10 @@
+//go:build verif
+// +build verif
+
+// Contracts for package keystore, checked by /verif/cmd/govc (comment-only file; see /verif/DESIGN.md).
+package keystore
+
+// the selected keystore (nil when no wallet is selected); reads manager state only
+//@ func (*KeystoreManager).CurrentKeystore
+//@   trusted
+//@   pure
